@@ -1,5 +1,7 @@
 import Robust.Irc.Inv
 import Robust.Irc.Proofs.Entry
+import Robust.Irc.Proofs.ChanLimitEntry
+import Robust.Irc.Proofs.ChanLimitSessEntry
 /-!
 # C14 — IRC state stays consistent
 
@@ -177,4 +179,295 @@ theorem C14_invB {st : St} (h : GInv st) : invB st = true := by
       obtain ⟨id, s, h1, h2, h3⟩ := hmem e.1 (AMap.mem_keys_of_mem he)
       simp only [h1, h2]
       exact List.contains_iff_mem.2 h3
+
+/-! ## the configured limits (`MaxSessions`, `MaxChannels`)
+
+What holds in the model (and in the Go code): a channel is created only by a client's `JOIN` and by the services
+commands `JOIN` / `SVSJOIN`, and each of the three creates it only while the number of channels is below
+`MaxChannels` (or `MaxChannels = 0`, no limit); at the limit the line is refused with `403`.  Every other client
+command, every other services command, session deletion and expiry never raise the number of channels; no command
+touches the limits themselves (GLINE only changes `config.banned`).  So the clause "the configured maximum number
+of channels is never exceeded" holds for every well-formed history — whoever the acting sessions are — in which no
+Config entry lowers the limit below the current number of channels (`C14_limits_channels_history`).  Sessions are
+created by CreateSession entries and by the services `NICK`, both through `createSession`, which refuses at the
+limit. -/
+
+/-- **one JOIN target** (`joinOne`): the limit is untouched; the number of channels does not grow, or exactly one
+channel — under a key that was not stored — is created, and then the number of channels was below the limit
+(or there is no limit) -/
+theorem C14_join_creates_only_below_limit {c c' : Ctx} {sid : Id} {chn key : String}
+    (hr : joinOne c sid chn key = .ok c') :
+    c'.st.config.maxChannels = c.st.config.maxChannels ∧
+    (c'.st.channels.length ≤ c.st.channels.length ∨
+      (c'.st.channels.length = c.st.channels.length + 1 ∧ AMap.get c.st.channels (chanToLower chn) = none ∧
+        (c.st.config.maxChannels = 0 ∨ c.st.channels.length < c.st.config.maxChannels))) :=
+  joinOne_creates_only_below_limit hr
+
+/-- **one services JOIN target** (`serverJoinOne`, the step of `cmdServerJoin`): the same — the limit is untouched;
+the number of channels does not grow, or exactly one channel — under a key that was not stored — is created, and
+then the number of channels was below the limit (or there is no limit) -/
+theorem C14_services_join_creates_only_below_limit {c c' : Ctx} {m : IrcMsg} {chn : String}
+    (hr : serverJoinOne c m chn = .ok c') :
+    c'.st.config.maxChannels = c.st.config.maxChannels ∧
+    (c'.st.channels.length ≤ c.st.channels.length ∨
+      (c'.st.channels.length = c.st.channels.length + 1 ∧ AMap.get c.st.channels (chanToLower chn) = none ∧
+        (c.st.config.maxChannels = 0 ∨ c.st.channels.length < c.st.config.maxChannels))) :=
+  serverJoinOne_creates_only_below_limit hr
+
+/-- **services SVSJOIN** (`cmdServerSvsjoin`; the channel is the second parameter): the same -/
+theorem C14_services_svsjoin_creates_only_below_limit {c c' : Ctx} {sid : Id} {m : IrcMsg}
+    (hr : cmdServerSvsjoin c sid m = .ok c') :
+    c'.st.config.maxChannels = c.st.config.maxChannels ∧
+    (c'.st.channels.length ≤ c.st.channels.length ∨
+      ∃ chn, m.params[1]? = some chn ∧
+        c'.st.channels.length = c.st.channels.length + 1 ∧ AMap.get c.st.channels (chanToLower chn) = none ∧
+        (c.st.config.maxChannels = 0 ∨ c.st.channels.length < c.st.config.maxChannels)) :=
+  cmdServerSvsjoin_creates_only_below_limit hr
+
+/-- **JOIN** (any number of targets): with a limit the number of channels stays at most the larger of the
+previous number and the limit -/
+theorem C14_join_channel_limit {c c' : Ctx} {sid : Id} {m : IrcMsg} (hr : cmdJoin c sid m = .ok c') :
+    c'.st.config.maxChannels = c.st.config.maxChannels ∧
+    (0 < c.st.config.maxChannels → c'.st.channels.length ≤ max c.st.channels.length c.st.config.maxChannels) :=
+  cmdJoin_channel_limit hr
+
+/-- **every handler of the command table** (client and services) except the three joining handlers — the client's
+`JOIN` and the services `JOIN` / `SVSJOIN`, which respect the limit (`C14_all_handlers_channel_limit`): the limit
+is untouched and the number of channels does not grow -/
+theorem C14_handlers_do_not_create_channels {fname : String} {h : Handler} (hh : handlerByName fname = some h)
+    (h1 : fname ≠ "cmdJoin") (h2 : fname ≠ "cmdServerJoin") (h3 : fname ≠ "cmdServerSvsjoin")
+    {c c' : Ctx} {sid : Id} {m : IrcMsg} (hr : h c sid m = .ok c') :
+    c'.st.config.maxChannels = c.st.config.maxChannels ∧ c'.st.channels.length ≤ c.st.channels.length :=
+  let r := handler_chanLe hh h1 h2 h3 c.st c sid m c' (ChanLe.refl _) hr
+  ⟨r.maxChannels, r.le⟩
+
+/-- **every handler of the command table, no exception** (client and services, the three joining handlers
+included): the limit is untouched, and with a limit the number of channels stays at most the larger of the
+previous number and the limit -/
+theorem C14_all_handlers_channel_limit {fname : String} {h : Handler} (hh : handlerByName fname = some h)
+    {c c' : Ctx} {sid : Id} {m : IrcMsg} (hr : h c sid m = .ok c') :
+    c'.st.config.maxChannels = c.st.config.maxChannels ∧
+    (0 < c.st.config.maxChannels → c'.st.channels.length ≤ max c.st.channels.length c.st.config.maxChannels) :=
+  let r := handler_chanLim hh c.st c sid m c' (ChanLim.refl _) hr
+  ⟨r.maxChannels, r.le⟩
+
+/-- **one entry, any acting session (client or services link)**: entries other than Config entries keep the limit,
+Config entries keep the channels; the number of channels grows only through a type-2 entry whose line is `JOIN`
+(from a client or a services link) or `SVSJOIN` from a services link, and then — with a limit — it stays at most
+the larger of the previous number and the limit -/
+theorem C14_limits_channels_entry {st st' : St} {e : Entry} {out : List Out} (h : GInv st) (he : EntryOk st e)
+    (hr : applyEntry st e = .ok (st', out)) :
+    (e.type ≠ 6 → st'.config.maxChannels = st.config.maxChannels) ∧
+    (e.type = 6 → st'.channels = st.channels) ∧
+    (st'.channels.length ≤ st.channels.length ∨
+      (e.type = 2 ∧ ∃ s m, AMap.get st.sessions e.session = some s ∧ parseMessage e.data = some m ∧
+        (toUpper m.command = "JOIN" ∨ (s.server = true ∧ toUpper m.command = "SVSJOIN")) ∧
+        (0 < st.config.maxChannels → st'.channels.length ≤ max st.channels.length st.config.maxChannels))) :=
+  let r := applyEntry_chan (SessWf.of_core h.inv.toWInvCore) he.1 hr
+  ⟨r.maxChannels, r.config, r.chans⟩
+
+/-- **channel limit**: an entry — whoever the acting session is — never changes the limit (unless it is a
+Config entry, which leaves the channels alone), never raises the number of channels above
+`max (current number) maxChannels`, and raises it at all only through a `JOIN` or a services link's `SVSJOIN` -/
+theorem C14_limits_channels {st st' : St} {e : Entry} {out : List Out} (h : GInv st) (he : EntryOk st e)
+    (hr : applyEntry st e = .ok (st', out)) :
+    (e.type ≠ 6 → st'.config.maxChannels = st.config.maxChannels) ∧
+    (e.type = 6 → st'.channels = st.channels) ∧
+    (0 < st.config.maxChannels → e.type ≠ 6 → st'.channels.length ≤ max st.channels.length st.config.maxChannels) ∧
+    (st.channels.length < st'.channels.length →
+       e.type = 2 ∧ ∃ s m, AMap.get st.sessions e.session = some s ∧ parseMessage e.data = some m ∧
+         (toUpper m.command = "JOIN" ∨ (s.server = true ∧ toUpper m.command = "SVSJOIN"))) := by
+  obtain ⟨h1, h2, h3⟩ := C14_limits_channels_entry h he hr
+  refine ⟨h1, h2, fun hpos _ => ?_, fun hlt => ?_⟩
+  · rcases h3 with hle | ⟨_, s, m, _, _, _, hlim⟩
+    · exact Nat.le_trans hle (Nat.le_max_left _ _)
+    · exact hlim hpos
+  · rcases h3 with hle | ⟨ht, s, m, hs, hm, hj, _⟩
+    · omega
+    · exact ⟨ht, s, m, hs, hm, hj⟩
+
+/-- the limit is respected (`maxChannels = 0`: no limit) -/
+def ChannelsWithinLimit (st : St) : Prop :=
+  st.config.maxChannels = 0 ∨ st.channels.length ≤ st.config.maxChannels
+
+/-- **the limit is respected after the entry** when it was before — for every acting session, client or services
+link — provided that a Config entry sets a limit that is `0` or at least the current number of channels -/
+theorem C14_limits_channels_step {st st' : St} {e : Entry} {out : List Out} (h : GInv st) (he : EntryOk st e)
+    (hl : ChannelsWithinLimit st)
+    (hcfg : e.type = 6 → ∀ cfg, e.cfg = some cfg → cfg.maxChannels = 0 ∨ st.channels.length ≤ cfg.maxChannels)
+    (hr : applyEntry st e = .ok (st', out)) : ChannelsWithinLimit st' :=
+  (applyEntry_chan (SessWf.of_core h.inv.toWInvCore) he.1 hr).within hl hcfg ⟨out, hr⟩
+
+/-- along the history (threaded through `applyEntry` like `WfHistory`): a Config entry sets a limit that is
+`0` or at least the current number of channels -/
+def LimitHistory (st : St) : List Entry → Prop
+  | [] => True
+  | e :: es =>
+    (e.type = 6 → ∀ cfg, e.cfg = some cfg → cfg.maxChannels = 0 ∨ st.channels.length ≤ cfg.maxChannels) ∧
+    ∀ st' out, applyEntry st e = .ok (st', out) → LimitHistory st' es
+
+theorem LimitHistory_iff (st : St) (es : List Entry) : LimitHistory st es ↔ Robust.Irc.LimitHistory st es := by
+  induction es generalizing st with
+  | nil => exact Iff.rfl
+  | cons e es ih =>
+    unfold LimitHistory Robust.Irc.LimitHistory
+    exact and_congr Iff.rfl (forall_congr' fun st' => forall_congr' fun out => imp_congr Iff.rfl (ih st'))
+
+/-- **the channel limit over histories**: in a well-formed history from the initial state in which no Config
+entry lowers the limit below the current number of channels, the number of channels never exceeds the configured
+limit (no exception for services links: their `JOIN` / `SVSJOIN` are refused at the limit) -/
+theorem C14_limits_channels_history {es : List Entry} {st : St} (hw : WfHistory {} es)
+    (hl : LimitHistory {} es) (hr : runEntries {} es = .ok st) : ChannelsWithinLimit st :=
+  run_within_limit (SessWf.of_core GInv_init.inv.toWInvCore) (Or.inl rfl) hw ((LimitHistory_iff _ _).1 hl) hr
+
+/-! ### non-vacuity: at the limit the services `JOIN` / `SVSJOIN` are refused
+
+The state below was the counterexample to the channel limit before services `JOIN` / `SVSJOIN` checked
+`MaxChannels`: then both lines succeeded and left two channels although `MaxChannels = 1`. -/
+
+def cexAlice : Session :=
+  { id := ⟨1, 0⟩, nick := "alice", username := "al", loggedIn := true, channels := ["#c"]
+    ircPrefix := ⟨"alice", "al", "robust/0x1"⟩ }
+def cexServ : Session :=
+  { id := ⟨9, 0⟩, server := true, ircPrefix := ⟨"services.example", "", ""⟩ }
+/-- a pseudo-client of the link 9 -/
+def cexChanServ : Session :=
+  { id := ⟨9, 77⟩, nick := "ChanServ", username := "services", channels := []
+    ircPrefix := ⟨"ChanServ", "services", "robust/0x9"⟩ }
+def cexChanC : Channel := { name := "#c", nicks := [("alice", { chanop := true })], modes := ['n', 't'] }
+
+/-- `MaxChannels = 1`, one channel `#c` (alice), one services link (session 9) with the pseudo-client ChanServ:
+the number of channels is at the limit -/
+def cexSt : St :=
+  { sessions := [(⟨1, 0⟩, cexAlice), (⟨9, 0⟩, cexServ), (⟨9, 77⟩, cexChanServ)]
+    nicks := [("alice", ⟨1, 0⟩), ("chanserv", ⟨9, 77⟩)]
+    channels := [("#c", cexChanC)]
+    serverSessions := [9]
+    config := { maxChannels := 1 } }
+
+/-- `:services.example SVSJOIN alice #new` -/
+def cexSvsjoin : IrcMsg := ⟨some ⟨"services.example", "", ""⟩, "SVSJOIN", ["alice", "#new"]⟩
+/-- `:ChanServ JOIN #new` -/
+def cexJoin : IrcMsg := ⟨some ⟨"ChanServ", "", ""⟩, "JOIN", ["#new"]⟩
+
+/-- the executable consistency predicate holds of the example state (that it satisfies the proved invariant
+`GInv` is `C14_cex_state_consistent` in `C14Cex.lean`, which needs the checker of `RcptCheck.lean`) -/
+theorem cexSt_invB : invB cexSt = true := by decide
+
+/-- **at the limit the services SVSJOIN and JOIN are refused**: in a consistent state (`invB`; `GInv` in
+`C14Cex.lean`) with `MaxChannels = 1` and one channel, the services lines `SVSJOIN alice #new` and
+`:ChanServ JOIN #new` succeed as handlers but create nothing: the only output is the numeric `403` to the services
+link (session 9), and there is still one channel -/
+theorem C14_services_refused_at_channel_limit :
+    invB cexSt = true ∧ ChannelsWithinLimit cexSt ∧
+    (match cmdServerSvsjoin ⟨cexSt, 1, 0, []⟩ ⟨9, 0⟩ cexSvsjoin with
+     | .ok c' => decide (c'.st.channels.length = 1 ∧ c'.st.config.maxChannels = 1 ∧
+         c'.out = [⟨1, 1, utf8 ":robustirc.net 403 services.example #new :No such channel", [9]⟩])
+     | _ => false) = true ∧
+    (match cmdServerJoin ⟨cexSt, 1, 0, []⟩ ⟨9, 0⟩ cexJoin with
+     | .ok c' => decide (c'.st.channels.length = 1 ∧ c'.st.config.maxChannels = 1 ∧
+         c'.out = [⟨1, 1, utf8 ":robustirc.net 403 ChanServ #new :No such channel", [9]⟩])
+     | _ => false) = true ∧
+    (match cmdServerSvsjoin ⟨cexSt, 1, 0, []⟩ ⟨9, 0⟩ cexSvsjoin with
+     | .ok c' => ChannelsWithinLimit c'.st
+     | _ => False) ∧
+    (match cmdServerJoin ⟨cexSt, 1, 0, []⟩ ⟨9, 0⟩ cexJoin with
+     | .ok c' => ChannelsWithinLimit c'.st
+     | _ => False) :=
+  ⟨cexSt_invB, Or.inr (by decide), by decide +kernel, by decide +kernel,
+    Or.inr (by decide +kernel), Or.inr (by decide +kernel)⟩
+
+/-- … and through the whole of `ProcessMessage` for the services link (session 9): the same two lines, dispatched
+via the command table, are answered with `403` to the services link and leave the one channel -/
+theorem C14_services_refused_at_channel_limit_processMessage :
+    (match processMessage ⟨cexSt, 1, 0, []⟩ { (default : Entry) with type := 2, id := 1, session := ⟨9, 0⟩ }
+        (some cexSvsjoin) with
+     | .ok c' => decide (c'.st.channels.length = 1 ∧ c'.st.config.maxChannels = 1 ∧
+         c'.out = [⟨1, 1, utf8 ":robustirc.net 403 services.example #new :No such channel", [9]⟩])
+     | _ => false) = true ∧
+    (match processMessage ⟨cexSt, 1, 0, []⟩ { (default : Entry) with type := 2, id := 1, session := ⟨9, 0⟩ }
+        (some cexJoin) with
+     | .ok c' => decide (c'.st.channels.length = 1 ∧ c'.st.config.maxChannels = 1 ∧
+         c'.out = [⟨1, 1, utf8 ":robustirc.net 403 ChanServ #new :No such channel", [9]⟩])
+     | _ => false) = true :=
+  ⟨by decide +kernel, by decide +kernel⟩
+
+/-! ### the session limit -/
+
+/-- **CreateSession entries**: the configuration is untouched; with a limit the number of sessions stays at most
+the larger of the previous number and the limit; at the limit nothing happens -/
+theorem C14_limits_sessions_entry {st st' : St} {e : Entry} {out : List Out} (ht : e.type = 0)
+    (hr : applyEntry st e = .ok (st', out)) :
+    st'.config = st.config ∧
+    (0 < st.config.maxSessions → st'.sessions.length ≤ max st.sessions.length st.config.maxSessions) ∧
+    (st.config.maxSessions ≤ st.sessions.length → 0 < st.config.maxSessions → st' = st) :=
+  applyEntry_create_sessions ht hr
+
+/-- **services NICK** (the other caller of `createSession`): the same bound -/
+theorem C14_limits_sessions_services_nick {c c' : Ctx} {sid : Id} {m : IrcMsg}
+    (hr : cmdServerNick c sid m = .ok c') :
+    c'.st.config = c.st.config ∧
+    (0 < c.st.config.maxSessions → c'.st.sessions.length ≤ max c.st.sessions.length c.st.config.maxSessions) :=
+  chanLim_cmdServerNick_sessions hr
+
+/-- **every handler of the command table except the services `NICK`**: the session limit is untouched and the
+number of stored sessions does not grow (sessions flagged deleted are purged after the handler) -/
+theorem C14_handlers_do_not_create_sessions {fname : String} {h : Handler} (hh : handlerByName fname = some h)
+    (hn : fname ≠ "cmdServerNick") {c c' : Ctx} {sid : Id} {m : IrcMsg}
+    (hw : (∀ id s, AMap.get c.st.sessions id = some s → s.id = id) ∧ (AMap.keys c.st.sessions).Nodup)
+    (hr : h c sid m = .ok c') :
+    c'.st.config.maxSessions = c.st.config.maxSessions ∧ c'.st.sessions.length ≤ c.st.sessions.length :=
+  let r := handler_sessLe hh hn c.st c sid m c' (SessLe.refl ⟨hw.1, hw.2⟩) hr
+  ⟨r.maxSessions, r.le⟩
+
+/-- **one entry**: entries other than Config entries keep the session limit, Config entries keep the sessions;
+the number of sessions grows only through a CreateSession entry or the services `NICK` of a services link,
+and then — with a limit — it stays at most the larger of the previous number and the limit -/
+theorem C14_limits_sessions_any_entry {st st' : St} {e : Entry} {out : List Out} (h : GInv st) (he : EntryOk st e)
+    (hr : applyEntry st e = .ok (st', out)) :
+    (e.type ≠ 6 → st'.config.maxSessions = st.config.maxSessions) ∧
+    (e.type = 6 → st'.sessions = st.sessions) ∧
+    (st'.sessions.length ≤ st.sessions.length ∨
+      ((e.type = 0 ∨ (e.type = 2 ∧ ∃ s m, AMap.get st.sessions e.session = some s ∧
+          parseMessage e.data = some m ∧ s.server = true ∧ toUpper m.command = "NICK")) ∧
+        (0 < st.config.maxSessions → st'.sessions.length ≤ max st.sessions.length st.config.maxSessions))) :=
+  let r := applyEntry_sess (SessWf.of_core h.inv.toWInvCore) he.1 hr
+  ⟨r.maxSessions, r.config, r.sess⟩
+
+/-- the session limit is respected (`maxSessions = 0`: no limit) -/
+def SessionsWithinLimit (st : St) : Prop :=
+  st.config.maxSessions = 0 ∨ st.sessions.length ≤ st.config.maxSessions
+
+/-- **the session limit is respected after the entry** when it was before and — for a Config entry — the new
+limit is `0` or at least the current number of sessions -/
+theorem C14_limits_sessions_step {st st' : St} {e : Entry} {out : List Out} (h : GInv st) (he : EntryOk st e)
+    (hl : SessionsWithinLimit st)
+    (hcfg : e.type = 6 → ∀ cfg, e.cfg = some cfg → cfg.maxSessions = 0 ∨ st.sessions.length ≤ cfg.maxSessions)
+    (hr : applyEntry st e = .ok (st', out)) : SessionsWithinLimit st' :=
+  (applyEntry_sess (SessWf.of_core h.inv.toWInvCore) he.1 hr).within hl hcfg ⟨out, hr⟩
+
+/-- along the history (threaded through `applyEntry` like `WfHistory`): a Config entry sets a session limit that
+is `0` or at least the current number of sessions -/
+def SessLimitHistory (st : St) : List Entry → Prop
+  | [] => True
+  | e :: es =>
+    (e.type = 6 → ∀ cfg, e.cfg = some cfg → cfg.maxSessions = 0 ∨ st.sessions.length ≤ cfg.maxSessions) ∧
+    ∀ st' out, applyEntry st e = .ok (st', out) → SessLimitHistory st' es
+
+theorem SessLimitHistory_iff (st : St) (es : List Entry) :
+    SessLimitHistory st es ↔ Robust.Irc.SessLimitHistory st es := by
+  induction es generalizing st with
+  | nil => exact Iff.rfl
+  | cons e es ih =>
+    unfold SessLimitHistory Robust.Irc.SessLimitHistory
+    exact and_congr Iff.rfl (forall_congr' fun st' => forall_congr' fun out => imp_congr Iff.rfl (ih st'))
+
+/-- **the session limit over histories**: in a well-formed history from the initial state in which no Config
+entry lowers the limit below the current number of sessions, the number of stored sessions never exceeds the
+configured limit (no exception for services links: their `NICK` goes through `createSession`) -/
+theorem C14_limits_sessions_history {es : List Entry} {st : St} (hw : WfHistory {} es)
+    (hl : SessLimitHistory {} es) (hr : runEntries {} es = .ok st) : SessionsWithinLimit st :=
+  run_sessions_within_limit (SessWf.of_core GInv_init.inv.toWInvCore) (Or.inl rfl) hw
+    ((SessLimitHistory_iff _ _).1 hl) hr
+
 end Robust.Props.C14
